@@ -22,7 +22,8 @@ func init() {
 			"(P) the explicit panic(...) sites, and the os.Exit / log.Fatal* / log.Panic* / runtime.Goexit calls, that are reachable in the call graph from token.Tokenize, parse.Parse, parse.ParseExpr, check.Check, render.Render, generate.Do, cgen.Do and dumbindent.FormatBytes are exactly the frozen ones, each with its stated pre-condition, and the callers establish the pre-conditions that are structural (makeSliceLengthEqEq's argument is an arbitrary-precision decimal; andBothNonNeg / orBothNonNeg / andOneNegOneNonNeg receive split2Ways components only under their has-flag; bitMask receives BitLen() results); " +
 			"(L) lang/token compares against maxLine, maxTokenSize and maxID before the corresponding growth (line++, the token text handed to Map.Insert, the insertion of a new ID); " +
 			"(L.index) every index / slice expression on a local slice or string variable (the input src and its sub-strings) in token.Tokenize and the lang/token functions it calls (Unescape, hasPrefix, ID.IsIdent, ID.IsLiteral) whose index has the form v, v+c, v-c, len(s)-c or a constant is in range by a difference-constraint (zone) argument over go/cfg: the length tests, loop conditions, short-circuit operands and assignments passed on every path imply 0 <= index < len (0 <= lo <= hi <= len for slices); " +
-			"(N) the accessors of lang/ast that can return nil for a node the parser builds are derived from the constructor calls of lang/parse and lang/ast and must be covered by an explicit table (Assign.LHS, Expr.LHS/MHS/RHS, TypeExpr.ArrayLength/Receiver/Min/Max/Inner, If.ElseIf, Iterate.ElseIterate, IOManip.Arg1/HistoryPosition, Func.Out); in lang/parse every dereferencing method call on such a result is dominated by a nil test of that value, or by a discriminator test whose implication (TypeExpr.Decorator() != 0 ⇒ Inner() != nil) is verified from the same constructor calls",
+			"(N) the accessors of lang/ast that can return nil for a node the parser builds are derived from the constructor calls of lang/parse and lang/ast and must be covered by an explicit table (Assign.LHS, Expr.LHS/MHS/RHS, TypeExpr.ArrayLength/Receiver/Min/Max/Inner, If.ElseIf, Iterate.ElseIterate, IOManip.Arg1/HistoryPosition, Func.Out); in lang/parse every dereferencing method call on such a result is dominated by a nil test of that value, or by a discriminator test whose implication (TypeExpr.Decorator() != 0 ⇒ Inner() != nil) is verified from the same constructor calls; " +
+			"(CC) for a systematic construct corpus (corpus/ccompile + wv/c11_cc_gen.go: every operator of cgen's cOpNames x numeric type x operand position, conversions between all pairs, type shapes to depth 3 x declaration position, method kinds, statement forms, one call of every built-in of lang/builtin's tables that has a C lowering) the working tree's compiler accepts each program and gcc, clang and g++ accept the C it emits (-fsyntax-only; nothing is executed), and the corpus, measured on its type-checked syntax trees, reaches every case of the cgen tables it targets",
 		NotDecided: "implicit panics other than the two clauses above: nil dereferences in lang/check, lang/render, lang/generate and internal/cgen (their uses of the may-be-nil accessors rest on operator tests whose implications were not verified, so N.lhs covers lang/parse only; `Bounds()` returns both bounds in an array and is not tracked; a may-be-nil value passed as an argument, stored in a field or returned is not followed), index expressions on arrays, maps, struct fields and with non-linear indices (listed as L.index.other), indexing outside lang/token, failed type assertions, integer division by zero, out-of-memory; slicing is judged against len, not cap; machine-integer overflow of index arithmetic is not modelled; termination of loops (infinite loops, e.g. in lib/dumbindent or fixed-point iterations in cgen's liveness); the value-level pre-conditions of the frozen panic sites in lib/interval (operand bit lengths <= 0xFFFF / 1<<30, livenesses of equal length); stack consumption per recursion level (a guard bounds the depth, not the bytes; the declaration-graph walk ast.tssVisit is bounded only by maxID = 2^20 distinct names); recursion that passes through standard-library callbacks; that the C emitted for accepted programs is accepted by the C compiler (clause 3 of DESIGN §4 C11 is implemented separately)",
 		Assumptions: []string{
 			"go/types, go/cfg, go/ssa and go/callgraph/{cha,vta} (x/tools v0.29.0) are sound for this code: no reflection or unsafe is used to call functions",
@@ -30,6 +31,7 @@ func init() {
 			"the frozen tables (derived walkers, declaration-graph walks, panic pre-conditions) were each confirmed by reading the function; they are listed with their reason in every run's INFO lines",
 			"a Go stack of 1 GB accommodates 65536 nested frames of any function of the toolchain",
 			"N: As*() casts are applied according to Node.Kind (a write through an (*Iterate) view changes an Iterate); elements of node lists are never nil; a parse function's pointer result is used only after its error result was tested (summaries consider non-error returns)",
+			"(CC) gcc 12, clang 14 and g++ 12 with -fsyntax-only report the constraint violations a full compilation would; the corpus programs are the ones the unchanged tree accepts (a rejected corpus program is undecided, never skipped)",
 		},
 	}, runC11)
 }
@@ -145,6 +147,7 @@ func runC11(c *core.Ctx) {
 	t0 = time.Now()
 	c11Control(c)
 	c11T("control", t0)
+	c11CC(c, k) // last clause of C11: the emitted C is accepted by the C compiler (c11_cc.go)
 }
 
 func c11T(what string, t0 time.Time) {
